@@ -81,3 +81,176 @@ package lisp
 //@   ensures  [chain-minimal] result > 0 ==> forall(j, len(s.Frames)-result+1, len(s.Frames), s.Frames[j].FID != fid)
 //@   ensures  [none] result == 0 ==> exists(j, 0, len(s.Frames)+1, forall(k, j, len(s.Frames), s.Frames[k].Terminal && s.Frames[k].FID != fid) && (j == 0 || !s.Frames[j-1].Terminal))
 //@   property C02
+
+// ---------------------------------------------------------------- runtime.go
+
+//@ func (*Runtime).beginEval
+//@   inline
+//@   requires r != nil && r.evalDepth >= 0 && r.evalDepth < 4611686018427387904
+//@   ensures  [depth] r.evalDepth == old(r.evalDepth) + 1
+//@   ensures  [refill-outermost] old(r.evalDepth) == 0 ==> r.steps == 0
+//@   ensures  [no-refill-nested] old(r.evalDepth) > 0 ==> unchanged(r.steps, r.totalSteps)
+//@   modifies r.evalDepth, r.steps, r.totalSteps
+//@   property C04 C05
+//@ func (*Runtime).endEval
+//@   inline
+//@   requires r != nil
+//@   ensures  [depth] old(r.evalDepth) > 0 ==> r.evalDepth == old(r.evalDepth) - 1
+//@   ensures  [floor] old(r.evalDepth) <= 0 ==> unchanged(r.evalDepth)
+//@   modifies r.evalDepth
+//@   property C04 C05
+//@ func (*Runtime).MaxMacroExpansions
+//@   inline
+//@ func (*Runtime).MaxAllocBytes
+//@   inline
+
+//@ func (*Runtime).evalNestingExceeded
+//@   requires r != nil
+//@   ensures  [exact] result == (r.MaxEvalNesting >= 0 && r.evalNesting > ite(r.MaxEvalNesting == 0, DefaultMaxEvalNesting, r.MaxEvalNesting))
+//@   modifies nothing
+//@   property C04
+
+//@ func (*Runtime).MaxEvalNestingDepth
+//@   requires r != nil
+//@   ensures  [exact] result == ite(r.MaxEvalNesting == 0, DefaultMaxEvalNesting, ite(r.MaxEvalNesting < 0, 0, r.MaxEvalNesting))
+//@   modifies nothing
+//@   property C04
+
+//@ func (*Runtime).MaxSleepCeiling
+//@   requires r != nil
+//@   ensures  [exact] result == ite(r.MaxSleep <= 0, 0, r.MaxSleep)
+//@   modifies nothing
+//@   property C04 C15
+
+//@ func (*Runtime).CheckAlloc
+//@   requires r != nil
+//@   ensures  [exact] (result == "") == (n <= ite(r.MaxAlloc > 0, r.MaxAlloc, DefaultMaxAlloc))
+//@   modifies nothing
+//@   property C04 C03
+
+//@ func (*Runtime).ResetSteps
+//@   requires r != nil
+//@   ensures  [resets] r.steps == 0
+//@   modifies r.steps, r.totalSteps
+//@   property C04
+
+//@ func (*Runtime).PushCondition
+//@   requires r != nil
+//@   ensures  [pushed] len(r.conditionStack) == old(len(r.conditionStack)) + 1 && r.conditionStack[len(r.conditionStack)-1] == err
+//@   ensures  [below-unchanged] forall(j, 0, old(len(r.conditionStack)), r.conditionStack[j] == old(r.conditionStack[j]))
+//@   property C05 C06
+
+//@ func (*Runtime).PopCondition
+//@   requires r != nil
+//@   ensures  [popped] old(len(r.conditionStack)) > 0 ==> len(r.conditionStack) == old(len(r.conditionStack)) - 1 && result == old(r.conditionStack[len(r.conditionStack)-1])
+//@   ensures  [empty] old(len(r.conditionStack)) == 0 ==> result == nil && len(r.conditionStack) == 0
+//@   ensures  [below-unchanged] forall(j, 0, len(r.conditionStack), r.conditionStack[j] == old(r.conditionStack[j]))
+//@   modifies r.conditionStack
+//@   property C05 C06
+
+//@ func (*Runtime).CurrentCondition
+//@   requires r != nil
+//@   ensures  [top] len(r.conditionStack) > 0 ==> result == r.conditionStack[len(r.conditionStack)-1]
+//@   ensures  [empty] len(r.conditionStack) == 0 ==> result == nil
+//@   modifies nothing
+//@   property C06
+
+// ---------------------------------------------------------------- host-supplied interfaces (assumed for host implementations)
+
+//@ functype context.Context.Err
+//@   pure
+//@   ensures result == uf("errCtx", arg0)
+
+//@ functype Debugger.IsEnabled
+//@   pure
+//@ functype Debugger.OnError
+//@   modifies nothing
+//@   nopanic
+//@ functype Debugger.OnEval
+//@   modifies nothing
+//@   nopanic
+//@ functype Debugger.WaitIfPaused
+//@   modifies nothing
+//@   nopanic
+//@ functype Debugger.OnFunEntry
+//@   modifies nothing
+//@   nopanic
+//@ functype Debugger.OnFunReturn
+//@   modifies nothing
+//@   nopanic
+//@ functype Debugger.AfterFunCall
+//@   modifies nothing
+//@   nopanic
+
+// ---------------------------------------------------------------- errors and limits (env.go)
+
+//@ pred rtOK(env) = env != nil && env.Runtime != nil && env.Runtime.Stack != nil
+
+//@ func (*CallStack).Copy
+//@   requires s != nil
+//@   ensures  [fresh] result != nil && fresh(result) && fresh(result.Frames)
+//@   ensures  [same-length] len(result.Frames) == len(s.Frames)
+//@   ensures  [same-frames] forall(j, 0, len(s.Frames), result.Frames[j] == s.Frames[j])
+//@   ensures  [limits-copied] result.MaxHeightLogical == s.MaxHeightLogical && result.MaxHeightPhysical == s.MaxHeightPhysical && result.MaxTailIterations == s.MaxTailIterations
+//@   ensures  [gostack-shared] result.GoStack == s.GoStack
+//@   modifies nothing
+//@   nopanic
+//@   property C18 C06
+
+//@ func (*LEnv).ErrorConditionf
+//@   requires rtOK(env)
+//@   ensures  [is-error] result != nil && fresh(result) && result.Type == LError && result.Str == condition
+//@   ensures  [stack-copy] typeis(result.Native, *CallStack) && result.Native.(*CallStack) != nil && fresh(result.Native.(*CallStack))
+//@   ensures  [stack-copy-gostack] result.Native.(*CallStack).GoStack == env.Runtime.Stack.GoStack
+//@   ensures  [stack-copy-frames] len(result.Native.(*CallStack).Frames) == len(env.Runtime.Stack.Frames)
+//@   modifies nothing
+//@   nopanic
+//@   property C04 C06 C18
+
+//@ func (*LEnv).Errorf
+//@   requires rtOK(env)
+//@   ensures  [is-error] result != nil && fresh(result) && result.Type == LError && result.Str == "error"
+//@   modifies nothing
+//@   nopanic
+//@   property C06
+
+//@ func (*LEnv).checkLimits
+//@   requires rtOK(env) && env.Runtime.steps >= 0 && env.Runtime.steps < 9223372036854775807
+//@   ensures  [fast-path] ctx == nil && env.Runtime.maxSteps == 0 ==> result == nil && env.Runtime.steps == old(env.Runtime.steps)
+//@   ensures  [counts] !(ctx == nil && old(env.Runtime.maxSteps) == 0) ==> env.Runtime.steps == old(env.Runtime.steps) + 1
+//@   ensures  [step-limit] old(env.Runtime.maxSteps) > 0 && old(env.Runtime.steps) + 1 > old(env.Runtime.maxSteps) ==> result != nil && result.Type == LError && result.Str == CondStepLimitExceeded
+//@   ensures  [cancelled] !(old(env.Runtime.maxSteps) > 0 && old(env.Runtime.steps) + 1 > old(env.Runtime.maxSteps)) && ctx != nil && uf("errCtx", ctx) != nil ==> result != nil && result.Type == LError && result.Str == CondContextCancelled
+//@   ensures  [ok] !(old(env.Runtime.maxSteps) > 0 && old(env.Runtime.steps) + 1 > old(env.Runtime.maxSteps)) && (ctx == nil || uf("errCtx", ctx) == nil) ==> result == nil
+//@   ensures  [budget-untouched] env.Runtime.maxSteps == old(env.Runtime.maxSteps)
+//@   modifies env.Runtime.steps
+//@   nopanic
+//@   property C04
+
+//@ func (*LEnv).checkLimitsSlow
+//@   requires rtOK(env) && env.Runtime.steps >= 0 && env.Runtime.steps < 9223372036854775807
+//@   ensures  [counts] env.Runtime.steps == old(env.Runtime.steps) + 1
+//@   ensures  [step-limit] env.Runtime.maxSteps > 0 && env.Runtime.steps > env.Runtime.maxSteps ==> result != nil && result.Type == LError && result.Str == CondStepLimitExceeded
+//@   ensures  [cancelled] !(env.Runtime.maxSteps > 0 && env.Runtime.steps > env.Runtime.maxSteps) && ctx != nil && uf("errCtx", ctx) != nil ==> result != nil && result.Type == LError && result.Str == CondContextCancelled
+//@   ensures  [ok] !(env.Runtime.maxSteps > 0 && env.Runtime.steps > env.Runtime.maxSteps) && (ctx == nil || uf("errCtx", ctx) == nil) ==> result == nil
+//@   modifies env.Runtime.steps
+//@   nopanic
+//@   property C04
+
+// ---------------------------------------------------------------- C04 frame obligations (who may touch the limit state)
+
+//@ frame writers(Runtime.steps) subset { (*LEnv).checkLimitsSlow, (*Runtime).ResetSteps, (*Runtime).beginEval } property C04
+//@ frame readers(Runtime.maxSteps) subset { (*LEnv).checkLimits, (*LEnv).checkLimitsSlow } property C04
+//@ frame writers(Runtime.maxSteps) subset { WithMaxSteps$1 } property C04
+//@ frame callers((*Runtime).ResetSteps) subset { } property C04
+//@ frame writers(CallStack.Frames) subset { (*CallStack).Copy, (*CallStack).Pop, (*CallStack).PushFID } property C04 C05
+//@ frame writers(CallStack.MaxHeightPhysical) subset { (*CallStack).Copy, StandardRuntime, WithMaximumPhysicalStackHeight$1 } property C04
+//@ frame writers(CallStack.GoStack) subset { (*CallStack).Copy, (*LEnv).eval$1, detachCallStack } property C04 C06
+//@ frame writers(Runtime.evalNesting) subset { (*LEnv).eval, (*LEnv).eval$1 } property C04 C05
+//@ frame writers(Runtime.evalDepth) subset { (*Runtime).beginEval, (*Runtime).endEval } property C04 C05
+//@ frame writers(Runtime.conditionStack) subset { (*Runtime).PopCondition, (*Runtime).PushCondition } property C05 C06
+//@ frame callers((*CallStack).PushFID) subset { (*LEnv).funCall, (*LEnv).macroCall, (*LEnv).specialOpCall } property C05
+//@ frame callers((*CallStack).Pop) subset { (*LEnv).funCall, (*LEnv).macroCall, (*LEnv).specialOpCall } property C05
+//@ frame callers((*Runtime).PushCondition) subset { opHandlerBind } property C05
+//@ frame callers((*Runtime).PopCondition) subset { opHandlerBind } property C05
+//@ frame callers((*Runtime).beginEval) subset { (*LEnv).Eval, (*LEnv).EvalContext, (*LEnv).EvalSExpr, (*LEnv).FunCall, (*LEnv).FunCallContext, (*LEnv).MacroCall, (*LEnv).SpecialOpCall, (*LEnv).load } property C05
+//@ frame callers((*LEnv).checkLimits) subset { (*LEnv).eval, (*LEnv).funCall, (*LEnv).specialOpCall, opDoTimes, opExpr } property C04
